@@ -87,6 +87,10 @@ class Report:
 
     def floor(self, rule: str, what: str, found: int, minimum: int) -> None:
         self.count(f"floor:{rule}:{what}", found)
+        if found < minimum and any(o.status == "violated" for o in self.obligations):
+            # the subject changed shape AND a rule already fired on it: report that, not an analysis error
+            self.notes.append(f"floor {rule}/{what} not met ({found} < {minimum}) after violations were recorded")
+            return
         if found < minimum:
             raise AnalysisError(
                 f"{rule}: found {found} {what}, expected at least {minimum} - "
